@@ -264,6 +264,13 @@ def run(tier):
             inputs.append(('utf8', b'int c = ' + pfx + b"'" + q + b"';", 'stdin'))
         inputs.append(('utf8', b'#define S(x) #x\nchar *s = S(' + q + b');', 'stdin'))
         inputs.append(('utf8', b'int a' + q + b'b;', 'stdin'))
+    # identifiers that look like encoding prefixes, glued to a quote (only u8, u, U and L are prefixes; anything else is an identifier followed by a literal)
+    for pfx in ['u', 'U', 'L', 'u8', 'U8', 'L8', 'u9', 'l', 'l8', 'uu', 'LL', 'u8u8', 'u88', 'U16', 'L32', 'R', 'u8R', 'x8', '_8', 'a', 'U8_t']:
+        for lit in ["'a'", '"abc"', "'\\n'", '""', "''", "'ab'", '"a" "b"', "'\\x41'"]:
+            inputs.append(('prefix', ('int c = %s%s;\n' % (pfx, lit)).encode(), 'stdin'))
+            inputs.append(('prefix', ('const void *p = %s%s;\n' % (pfx, lit)).encode(), 'stdin'))
+            inputs.append(('prefix', ('#define %s\nconst void *p = %s%s; int n = sizeof(%s%s);\n' % (pfx, pfx, lit, pfx, lit)).encode(), 'stdin'))
+            inputs.append(('prefix', ('#define %s "x"\nconst void *p = %s%s;\n#define S(x) #x\nconst char *q = S(%s%s);\n' % (pfx, pfx, lit, pfx, lit)).encode(), 'stdin'))
     # every attribute spelling the parser knows (and unknown ones), with and without arguments, in both syntaxes, at every place an attribute list may stand
     anames = ['aligned', 'aligned(8)', 'aligned(3)', 'aligned()', 'aligned(8, 9)', 'aligned("x")', 'constructor', 'constructor(1)', 'destructor', 'destructor()', 'packed', 'packed(1)', 'unknown', 'unknown(1, (2), "s")',
               '__aligned__', '__packed__', 'noreturn', 'deprecated("m")', 'aligned(sizeof(int))', 'aligned(0)', 'aligned(-1)', 'aligned(1 << 40)', 'aligned(gi)']
